@@ -661,7 +661,56 @@ func C06(run *mon.Run) {
 }
 
 // c06InvalidShares: one invalid share at every position of a qualifying set.
+// c06CompensatingLengths: two adjacent shares of wrong lengths that add up to 96 bytes (47+49, 40+56,
+// 0+96, 95+1) cut out of two valid shares, so that the concatenation of the list is exactly what the
+// valid list would give. Neither entry is a signature share: both APIs must answer with an error, never
+// with a signature (a length check on the flattened list instead of each entry would let them through).
+func c06CompensatingLengths(run *mon.Run, r *rand.Rand, g *thrGroup) {
+	if g.t < 1 {
+		return
+	}
+	signers := r.Perm(g.n)[:g.t+1]
+	for _, cut := range []int{47, 40, 0, 95, 1, 49, 96} {
+		pos := r.IntN(g.t) // entries pos and pos+1
+		shares := make([]crypto.Signature, len(signers))
+		for i, s := range signers {
+			shares[i] = g.share[s]
+		}
+		both := append(append([]byte{}, shares[pos]...), shares[pos+1]...)
+		shares[pos], shares[pos+1] = both[:cut], both[cut:]
+		rep := map[string]any{"n": g.n, "t": g.t, "seed": mon.Hex(g.seed), "signers": signers, "pos": pos, "lengths": []int{cut, 96 - cut}}
+		var out crypto.Signature
+		var err error
+		if !run.Guard("BLSReconstructThresholdSignature(compensating lengths)", rep, func() { out, err = crypto.BLSReconstructThresholdSignature(g.n, g.t, shares, signers) }) {
+			run.Eval(1)
+			if err == nil {
+				run.Violate("C06:compensating-share-lengths:stateless", fmt.Sprintf("BLSReconstructThresholdSignature with shares of %d and %d bytes at positions %d, %d returned %x without an error", cut, 96-cut, pos, pos+1, []byte(out)), rep)
+			}
+		}
+		ins, e := g.inspector()
+		if e != nil {
+			return
+		}
+		run.Guard("stateful(compensating lengths)", rep, func() {
+			for i, s := range signers {
+				_, _ = ins.TrustedAdd(s, shares[i])
+			}
+			for k := 0; k < 6; k++ { // (the object iterates over a map: several tries)
+				out, err := ins.ThresholdSignature()
+				run.Eval(1)
+				if err == nil {
+					run.Violate("C06:compensating-share-lengths:stateful", fmt.Sprintf("ThresholdSignature after TrustedAdd of shares of %d and %d bytes returned %x without an error", cut, 96-cut, []byte(out)), rep)
+					return
+				}
+			}
+		})
+		run.Count("compensating-lengths.cases", 1)
+	}
+	run.Shape("compensating-share-lengths")
+}
+
 func c06InvalidShares(run *mon.Run, r *rand.Rand, g *thrGroup) {
+	c06CompensatingLengths(run, r, g)
 	signers := r.Perm(g.n)[:g.t+1]
 	kinds := []string{"other-signer", "random-g1", "plus-T3", "malformed", "wrong-length", "infinity", "empty"}
 	for pos := 0; pos <= g.t; pos++ {
